@@ -2,53 +2,25 @@
 
     Every model function the harness runs is reached through [entry name
     table]: a table (rows of byte-string fields) in, a table out.  The same
-    function is evaluated by [vm_compute] inside Coq (generated [cases_*.v])
-    and by the extracted OCaml binary; the decoders below are glue, executed
-    identically on both paths. *)
+    function is evaluated by [vm_compute] inside Coq (generated case files)
+    and by the extracted OCaml binary; the decoders are glue, executed
+    identically on both paths.  Each model family registers an
+    [entry_xxx : str -> table -> option table] here. *)
 
 From Coq Require Import List Ascii String ZArith Bool.
-From Shexer Require Import Lib.PyStr Gen.Consts Model.Config.
+From Shexer Require Import Lib.PyStr Model.Table Model.EntryC20.
 Import ListNotations.
 
-Definition table := list (list str).
+Definition entries : list (str -> table -> option table) :=
+  [entry_c20].
 
-Definition fld (r : list str) (i : nat) : str := nth i r [].
-Definition fbool (r : list str) (i : nat) : bool := str_eqb (fld r i) (Str "1").
-(** option: "N" = None, "S..." = Some ... *)
-Definition fopt (r : list str) (i : nat) : option str :=
-  match fld r i with
-  | c :: rest => if Ascii.eqb c "S"%char then Some rest else None
-  | [] => None
-  end.
-Definition fZ (r : list str) (i : nat) : Z := Z_of_dec (fld r i).
-
-Definition outcome_str (o : outcome) : str :=
-  match o with
-  | Accept => Str "accept"
-  | RejectValueError => Str "ValueError"
-  | ObscureFailure => Str "obscure"
+Fixpoint dispatch (l : list (str -> table -> option table)) (name : str) (t : table) : table :=
+  match l with
+  | [] => [[Str "unknown-entry"]]
+  | e :: l' => match e name t with Some r => r | None => dispatch l' name t end
   end.
 
-Definition c20_ctor_row (r : list str) : list str :=
-  let c := {| src_graph_file := fbool r 0; src_list_of_files := fbool r 1; src_raw_graph := fbool r 2;
-              src_url_graph := fbool r 3; src_list_of_url := fbool r 4; src_url_endpoint := fbool r 5;
-              src_rdflib_graph := fbool r 6;
-              tgt_target_classes := fbool r 7; tgt_file_target_classes := fbool r 8;
-              tgt_shape_map_file := fbool r 9; tgt_shape_map_raw := fbool r 10;
-              all_classes_mode := fbool r 11;
-              input_format := fld r 12; compression_mode := fopt r 13; examples_mode := fopt r 14;
-              disable_or_statements := fbool r 15; allow_redundant_or := fbool r 16 |} in
-  [outcome_str (ctor c)].
-
-Definition c20_call_row (r : list str) : list str :=
-  let k := {| string_output := fbool r 0; has_output_file := fbool r 1; has_uml_path := fbool r 2;
-              output_format := fld r 3; thr_num := fZ r 4; thr_den := fZ r 5 |} in
-  [outcome_str (call k)].
-
-Definition entry (name : str) (t : table) : table :=
-  if str_eqb name (Str "c20_ctor") then map c20_ctor_row t
-  else if str_eqb name (Str "c20_call") then map c20_call_row t
-  else [[Str "unknown-entry"]].
+Definition entry (name : str) (t : table) : table := dispatch entries name t.
 
 (** comparison used by generated case files: indices of disagreeing cases *)
 Fixpoint table_eqb (a b : table) : bool :=
